@@ -642,8 +642,9 @@ class Model(EconomicObject):
         # (The marker is only ever put in front of the variable of a sector: a model-level equation that starts with a
         # variable named EXOGENOUS_RATE is an equation.)
         model_level = set(row[0] for row in self.GlobalVariables)
+        defined_names = set(row[0] for row in out)
         for row in out:
-            if row[0] not in model_level and self._IsExogenousDefinition(row[1]):
+            if row[0] not in model_level and self._IsExogenousDefinition(row[1], defined_names):
                 eq = Equation(row[0], desc=row[2], rhs=self._StripExogenousMarker(row[1]))
             else:
                 eq = Equation(row[0], desc=row[2], rhs=row[1])
@@ -653,16 +654,27 @@ class Model(EconomicObject):
         return out
 
     @staticmethod
-    def _IsExogenousDefinition(rhs):
+    def _IsExogenousDefinition(rhs, defined_names=()):
         """
         Is the right hand side an exogenous definition: the marker EXOGENOUS (put there by _ProcessExogenous)
         in front of the values? (The blanks between the marker and the values may have been squeezed out:
-        'EXOGENOUS20.'. A sector variable whose name contains the word - EXOGENOUS_G - carries its sector
-        code in front by now, HH__EXOGENOUS_G, so it cannot be at the start of a right hand side.)
+        'EXOGENOUS20.', 'EXOGENOUSsum(...)'.)
+
+        A right hand side that starts with the NAME OF A VARIABLE of the model is an equation, although the name may
+        start with the word: the variables of a sector coded EXOGENOUS_HH (EXOGENOUS_HH__AfterTax), or a model-level
+        variable EXOGENOUS_RATE. (A sector variable EXOGENOUS_G of another sector carries its sector code in front by
+        now - HH__EXOGENOUS_G - and is no issue.)
         :param rhs: str
+        :param defined_names: iterable of the names of all the variables of the model
         :return: bool
         """
-        return rhs.strip().startswith('EXOGENOUS')
+        rhs = rhs.strip()
+        if not rhs.startswith('EXOGENOUS'):
+            return False
+        pos = 0
+        while pos < len(rhs) and (rhs[pos].isalnum() or rhs[pos] == '_'):
+            pos += 1
+        return rhs[0:pos] not in defined_names
 
     @staticmethod
     def _StripExogenousMarker(rhs):
@@ -687,8 +699,9 @@ class Model(EconomicObject):
         endo = []
         exo = []
         model_level = set(row[0] for row in self.GlobalVariables)
+        defined_names = set(row[0] for row in out)
         for row in out:
-            if row[0] not in model_level and self._IsExogenousDefinition(row[1]):
+            if row[0] not in model_level and self._IsExogenousDefinition(row[1], defined_names):
                 new_eqn = self._StripExogenousMarker(row[1])
                 exo.append((row[0], new_eqn, row[2]))
             else:
